@@ -196,9 +196,19 @@ func (t *connectTransaction) Connack(mqConnack *mqPkts.ConnackPacket) error {
 		return err
 	}
 
+	h := t.handler
+	h.snLock.Lock()
+	if h.clientGone {
+		// The client has sent DISCONNECT meanwhile: it must not be revived.
+		h.snLock.Unlock()
+		t.Fail(Cancelled)
+		return nil
+	}
 	// Must be set before snSend to avoid race condition in tests.
-	t.handler.setState(util.StateActive)
-	if err := t.SendConnack(snPkts1.RC_ACCEPTED); err != nil {
+	h.setState(util.StateActive)
+	err := h.snSendLocked(snPkts1.NewConnack(snPkts1.RC_ACCEPTED))
+	h.snLock.Unlock()
+	if err != nil {
 		t.Fail(err)
 		return err
 	}
